@@ -46,10 +46,10 @@ FLOORS = {
               "counters": {"faults_fired": 4000, "identity_checks": 3500,
                            "post_fault_renders": 10000, "cases": 30,
                            "faults_sync": 1200, "faults_async": 1200}},
-    "thorough": {"evaluations": 100000, "distinct": 80000,
-                 "counters": {"faults_fired": 100000, "identity_checks": 90000,
-                              "post_fault_renders": 250000, "cases": 250,
-                              "faults_sync": 30000, "faults_async": 30000}},
+    "thorough": {"evaluations": 170000, "distinct": 170000,
+                 "counters": {"faults_fired": 170000, "identity_checks": 170000,
+                              "post_fault_renders": 500000, "cases": 500,
+                              "faults_sync": 80000, "faults_async": 80000}},
 }
 
 SYNC_APIS = ["render", "generate", "stream"]
